@@ -73,7 +73,7 @@ class Models:
             self.used.add('std::swap')
             a, b = args
             ct, _ = unit.ctype_node(a)
-            if ct.startswith('struct '):
+            if ct.startswith('struct ') and not ct.strip().endswith('*'):
                 raise Unsupported('std::swap of records (in %s)' % unit.cur)
             return 'V_SWAP(%s, %s, %s)' % (ct, unit.expr(a), unit.expr(b))
         if name in ('min', 'max') and len(args) == 2:
